@@ -7,8 +7,8 @@ import random
 import time
 
 VF_ROOT = os.path.dirname(os.path.dirname(os.path.abspath(__file__)))
-EVIDENCE_DIR = os.path.join(VF_ROOT, "evidence")
-REPLAY_DIR = os.path.join(VF_ROOT, "replay")
+EVIDENCE_DIR = os.environ.get("VF_EVIDENCE_DIR") or os.path.join(VF_ROOT, "evidence")
+REPLAY_DIR = os.environ.get("VF_REPLAY_DIR") or os.path.join(VF_ROOT, "replay")
 KNOWN_FILE = os.path.join(VF_ROOT, "known_findings.json")
 
 MAX_DISTINCT = 400000  # cap on remembered digests per process
